@@ -17,9 +17,9 @@ from . import gen
 
 ID = "C04"
 LEVEL = "exploration"
-RULE = ("(a) exhaustive: all sequences up to depth 4 (quick) / 5 (thorough) over 31 line-buffer operations (27 edits = "
-        "{first,middle,end} x {0,1,2 deleted} x {none,1 line,2 lines}, end-of-command, undo, redo, saved) from buffers of 0-2 "
-        "lines, and up to depth 7/8 over a reduced 8-operation alphabet; (b) random line-buffer sequences to length 200 with "
+RULE = ("(a) exhaustive: all sequences up to depth 4 (quick) / 5 (thorough) over 32 line-buffer operations (27 edits = "
+        "{first,middle,end} x {0,1,2 deleted} x {none,1 line,2 lines}, end-of-command, undo, redo, saved, unsaved-by-partial-write) from buffers of 0-2 "
+        "lines, and up to depth 7/8 over a reduced 9-operation alphabet; (b) random line-buffer sequences to length 200 with "
         "arbitrary texts; (c) random ex and vi command histories with undo/redo and new edits after undo, the text observed "
         "after every step.  Non-trivial = history with >=2 undos or (>=1 undo and >=1 redo), and >=1 edit (for (c): at "
         "least one compound command or an edit after an undo as well); distinct by SHA-1 of the case")
@@ -55,8 +55,10 @@ def lb_case(draw):
             ops.append(["U"])
         elif k == 8:
             ops.append(["R"])
-        else:
+        elif draw(st.booleans()):
             ops.append(["S"])
+        else:
+            ops.append(["P"])
     return {"kind": "lb", "start": draw(st.integers(0, 2)), "ops": ops}
 
 
@@ -99,7 +101,8 @@ def ex_hist(draw):
         elif k == 10:
             steps.append(("mod", draw(addr) + "r aux\n"))
         elif k == 11:
-            steps.append(("nomod", a + draw(st.sampled_from(["p", "=", "k a", ""])) + "\n"))
+            # (writes of the whole buffer or of a range to the own file do not change the text and must not disturb undo grouping)
+            steps.append(("nomod", draw(st.sampled_from([a + "p", a + "=", a + "k a", a, "w!", "1,1w!", "w! other", "1w!"])) + "\n"))
         elif k <= 15:
             steps.append(("u", "u\n"))
         elif k <= 17:
@@ -112,7 +115,8 @@ def ex_hist(draw):
 VI_MOD = ["x", "3x", "X", "dd", "2dd", "dw", "d$", "D", "dj", "dk", "dG", "d}", "J", "3J", "p", "P", "2p", "3P", ">>", "2>>", "<<", ">}", "~", "4~",
           "g~~", "gUw", "guu", "rZ", "2rQ", "ddp", "yyp", "xp", "!}sort\n", "!!tr a-z A-Z\n", ":g/o/s/o/0/\n", ":%s/a/A/g\n", ":2,3d\n", ":$d\n",
           ":1,2!sed s/^/Q/\n", ":g/./d\n", "d0", "dl", "dh", "de", "db"]
-VI_NOMOD = ["j", "k", "w", "b", "$", "0", "G", "1G", "l", "h", "yy", "yw", "\"ayy", "2j", "^", "e", "}", "{", "H", "L", "\x07", "ma", "'a"]
+VI_NOMOD = ["j", "k", "w", "b", "$", "0", "G", "1G", "l", "h", "yy", "yw", "\"ayy", "2j", "^", "e", "}", "{", "H", "L", "\x07", "ma", "'a",
+            ":w!\n", ":1,1w!\n", ":1w!\n"]
 VI_INS = ["i", "a", "I", "A", "o", "O", "s", "C", "cw", "c$", "cj", "cb", "2cw", "cG", "ck", "cc", "S", "2cc"]
 
 
@@ -212,7 +216,7 @@ def _hist_oracle(kinds, texts, t0):
 
 def _run_lb(env, c):
     args = [env.paths["p04"], "run", str(c["start"])]
-    codes = {"N": "27", "U": "28", "R": "29", "S": "30"}
+    codes = {"N": "27", "U": "28", "R": "29", "S": "30", "P": "31"}
     nu = nr = ne = 0
     for op in c["ops"]:
         if op[0] == "E":
@@ -250,6 +254,7 @@ def _run_ex(env, c):
         return None, None, r
     texts = [runner.read_file(d, "snap%d" % i) for i in range(len(c["steps"]))]
     # twin run without any observer between the commands: same final text expected
+    runner.write_file(d, "f", t0)           # (the history may have written the file: the twin starts from the same file)
     script = ["se wa\n"] + [cmd for k, cmd in c["steps"]] + ["%w! final\n"]
     r2 = runner.run_editor(env.paths["vi"], ["-s", "-e", "f"], "".join(script).encode("utf-8") + runner.EX_TRAILER, d, want_stats=False)
     if r2.timeout or r2.crashed():
@@ -272,6 +277,7 @@ def _run_vi(env, c):
     if r.timeout or r.crashed():
         return None, None, r
     texts = [runner.read_file(d, "snap%d" % i) for i in range(len(c["steps"]))]
+    runner.write_file(d, "f", t0)
     keys = [pre] + [cmd for k, cmd in c["steps"]] + ["\x1b:%w! final\n"]
     r2 = runner.run_editor(env.paths["vi"], ["-v", "f"], "".join(keys).encode("utf-8") + runner.VI_TRAILER, d, rows=c["rows"], cols=60, want_stats=False)
     if r2.timeout or r2.crashed():
@@ -307,7 +313,7 @@ def run_case(env, c):
 def extra(env, tier, seed):
     p = env.paths["p04"]
     d_full, d_small = (4, 7) if tier == "quick" else (5, 8)
-    jobs = [("full", d_full, f) for f in range(31)] + [("small", d_small, f) for f in range(8)]
+    jobs = [("full", d_full, f) for f in range(32)] + [("small", d_small, f) for f in range(9)]
 
     def one(j):
         r = subprocess.run([p, "enum", str(j[1]), j[0], str(j[2])], stdout=subprocess.PIPE, stderr=subprocess.PIPE,
@@ -330,14 +336,14 @@ def extra(env, tier, seed):
                         if o < 27:
                             enc_ops.append(["X", o])
                         else:
-                            enc_ops.append([{27: "N", 28: "U", 29: "R", 30: "S"}[o]])
+                            enc_ops.append([{27: "N", 28: "U", 29: "R", 30: "S", 31: "P"}[o]])
                     res[j[0]][3].append({"case": {"kind": "lbenum", "start": int(m.group(1)), "ops": ops}, "text": out})
                 else:
                     res[j[0]][3].append({"case": {"kind": "lbenum", "start": 0, "ops": []}, "text": out + r.stderr.decode("utf-8", "replace")[-800:]})
     outl = []
     for name, depth in (("full", d_full), ("small", d_small)):
         n, ops, nt, viol = res[name]
-        outl.append({"name": "lbuf_all_sequences_depth_le_%d_%s_alphabet" % (depth, "31-op" if name == "full" else "8-op"),
+        outl.append({"name": "lbuf_all_sequences_depth_le_%d_%s_alphabet" % (depth, "32-op" if name == "full" else "9-op"),
                      "exhaustive": True, "evaluations": n, "operations": ops, "distinct_nontrivial": nt,
                      "samples": ["start=1 ops: E(first,del 1,'a') N U R E(end,del 0,'b c')", "start=2 ops: E(mid,1,NULL) U U R S U"],
                      "violations": viol[:2]})
